@@ -9,6 +9,7 @@ pub mod c02;
 pub mod c03;
 pub mod c04;
 pub mod c05;
+pub mod c10;
 pub mod c12;
 pub mod c16;
 pub mod difflab;
@@ -35,6 +36,7 @@ pub fn lookup(id: &str) -> Option<Prop> {
         "C07" => Prop { isolate: false, level: "model_checking", run: rules::run_c07, replay: rules::replay_c07 },
         "C08" => Prop { isolate: false, level: "model_checking", run: rules::run_c08, replay: rules::replay_c08 },
         "C09" => Prop { isolate: false, level: "model_checking", run: rules::run_c09, replay: rules::replay_c09 },
+        "C10" => Prop { isolate: false, level: "model_checking", run: c10::run, replay: c10::replay },
         "C12" => Prop { isolate: false, level: "model_checking", run: c12::run, replay: c12::replay },
         "C16" => Prop { isolate: false, level: "model_checking", run: c16::run, replay: c16::replay },
         _ => return None,
